@@ -739,7 +739,13 @@ fn hash_sweep(exe: &std::path::Path, prop: &str, n: u64, jobs: u64) -> BTreeMap<
 /// logs; the no-alloc library artefact must not contain a heap back end or allocator calls.
 fn c19_differential(prop: &str, tier: &str, reported: &mut Vec<(String, String, String)>, infos: &[WorldInfo]) -> String {
     let exe = std::env::current_exe().unwrap();
-    let na = std::path::PathBuf::from(format!("{}/target-noalloc/release/anysim", &home()));
+    let mut na = std::path::PathBuf::from(format!("{}/target-noalloc/release/anysim", &home()));
+    if !na.exists() {
+        // output redirected (ANYSIM_HOME): the no-alloc build lies next to this build's target directory
+        if let Some(root) = exe.parent().and_then(|d| d.parent()).and_then(|d| d.parent()) {
+            na = root.join("target-noalloc/release/anysim");
+        }
+    }
     if !na.exists() {
         die2("no-alloc build of anysim is missing (run ./check --build-only)");
     }
@@ -770,7 +776,7 @@ fn c19_differential(prop: &str, tier: &str, reported: &mut Vec<(String, String, 
     let mut heap_syms = 0usize;
     let mut alloc_refs = 0usize;
     let mut inspected = String::from("no libany_vec rlib found");
-    if let Ok(rd) = std::fs::read_dir(format!("{}/target-noalloc/release/deps", &home())) {
+    if let Ok(rd) = std::fs::read_dir(na.parent().map(|d| d.join("deps")).unwrap_or_default()) {
         for e in rd.flatten() {
             let name = e.file_name().to_string_lossy().to_string();
             if name.starts_with("libany_vec-") && name.ends_with(".rlib") {
